@@ -1,6 +1,6 @@
 (* C17Agree.v -- correspondence: the logged command lines are exactly the model's, and the
    translator's reading of docker.rs / pack.rs is the one the model was written from. *)
-From LV Require Import Base SpecDocs Argv.
+From LV Require Import Base SpecDocs Argv ArgvTypes.
 From LV.Checks Require Import C17Hold.
 From LVGen Require GenLibcnbTest.
 From Coq Require Import String.
@@ -27,7 +27,16 @@ Definition agrees (c : case) : bool :=
       match snd pa, snd ra, observed_path (snd pa) with
       | _ :: img :: _, _ :: _ :: name :: _, Some pth =>
           list_eqb beq (snd pa) (argv_pack_build (mk_pack img (bv c pth))) &&
-          list_eqb beq (snd ra) (argv_docker_run (mk_run name img (b "linux/amd64") (k_ccfg c)))
+          list_eqb beq (snd ra) (argv_docker_run (mk_run name img (b "linux/amd64") (k_ccfg c))) &&
+          (* ... and the builders as the translator regenerated them from docker.rs / pack.rs *)
+          (let k := k_ccfg c in
+           list_eqb beq (b "docker" :: snd ra)
+             (GenLibcnbTest.gen_docker_run_argv name true false (Some (b "linux/amd64")) (c_entrypoint k) (c_env k)
+                (c_ports k) (c_mounts k) img (c_command k))) &&
+          (let v := bv c pth in
+           list_eqb beq (b "pack" :: snd pa)
+             (GenLibcnbTest.gen_pack_build_argv img (v_builder v) (img ++ b ".build-cache") (img ++ b ".launch-cache") (v_path v)
+                PullIfNotPresent (map BpId (v_buildpacks v)) (v_env v) true true))
       | _, _, _ => false
       end
   | _, _ => false
